@@ -42,4 +42,20 @@ def markerHit (markers : List (List Char)) (projectRelative : Bool) (above inPro
   let s := if projectRelative then '/' :: joinPath inProject else '/' :: joinPath (above ++ inProject)
   markers.any (fun m => containsSub s m)
 
+/-! ## Spellings of a path (`Path.resolve()` / `os.path.abspath` without symbolic links) -/
+
+def isSpecial (seg : Name) : Bool := seg == [] || seg == ['.'] || seg == ['.', '.']
+
+/-- walk the segments of a spelled path from a starting directory: "" and "." stay, ".." goes up, a name goes down -/
+def walkSegs (start : Path) : List Name → Path
+  | [] => start
+  | seg :: rest =>
+    if seg == [] || seg == ['.'] then walkSegs start rest
+    else if seg == ['.', '.'] then walkSegs start.dropLast rest
+    else walkSegs (start ++ [seg]) rest
+
+/-- a relative spelling is walked from the working directory, an absolute one from the root -/
+def resolveSpelling (cwd : Path) (absolute : Bool) (segs : List Name) : Path :=
+  walkSegs (if absolute then [] else cwd) segs
+
 end ThaiLintModel.C09
